@@ -15,6 +15,8 @@ type Env struct {
 	heap    map[string]Term
 	epoch   int
 	old     *Env
+	prev    *Env            // state at the head of the current loop iteration (prev(e))
+	cnt     map[string]Term // call counters (nil: entry state, all zero)
 	vars    map[string]Term
 	cells   func(name string) (Term, bool)
 	pkgName string
@@ -461,6 +463,48 @@ func (env *Env) evalCall(x *ECall) Term {
 		oe.vars = merged
 		oe.err = env.err
 		return oe.Eval(x.Args[0])
+	case "prev":
+		// prev(e): e at the head of the current loop iteration (inv-pres) / of the last loop entered
+		// on this path (ensures); where there is none, the current state
+		if env.prev == nil {
+			return env.Eval(x.Args[0])
+		}
+		pe := *env.prev
+		merged := make(map[string]Term, len(env.vars))
+		for k, v := range env.prev.vars {
+			merged[k] = v
+		}
+		for k, v := range env.vars {
+			if _, ok := merged[k]; !ok {
+				merged[k] = v
+			}
+		}
+		pe.vars = merged
+		pe.err = env.err
+		pe.prev = nil
+		return pe.Eval(x.Args[0])
+	case "calls":
+		// calls(NAME) / calls("NAME"): how many calls of NAME this activation has made so far
+		name := ""
+		switch a := x.Args[0].(type) {
+		case *EStr:
+			name = a.V
+		case *EIdent:
+			name = a.Name
+		default:
+			return env.fail("calls() needs a function name")
+		}
+		if env.cnt != nil {
+			if t, ok := env.cnt[lastPart(name)]; ok {
+				return t
+			}
+		}
+		return mkInt(0)
+	case "wraps":
+		// wraps(a, b): errors.Is(a, b) as far as %w wrapping establishes it
+		env.fv.wrapsDecl()
+		a, b := env.Eval(x.Args[0]), env.Eval(x.Args[1])
+		return Term{S: "(pv_wraps " + a.S + " " + b.S + ")", Sort: SBool}
 	case "len":
 		return env.lenOf(env.Eval(x.Args[0]))
 	case "ite":
